@@ -19,8 +19,10 @@ import (
 type Collection struct {
 	*config
 
-	mu   sync.RWMutex // protects byId and rng from concurrent access
+	mu   sync.RWMutex // protects byId from concurrent access
 	byId map[string]*item
+
+	rngMu sync.Mutex // protects rng, ids can be generated while mu is only held for reading
 	// "change" events contain a *CollectionChange instance
 	bus minibus.Bus
 }
@@ -356,6 +358,8 @@ func (c *Collection) itemSlice(readConfig *ReadRequest) []idItem {
 }
 
 func (c *Collection) genID() (string, error) {
+	c.rngMu.Lock()
+	defer c.rngMu.Unlock()
 	id, err := GenerateUniqueId(c.rng, func(candidate string) bool {
 		if c.idInterceptor != nil {
 			candidate = c.idInterceptor(candidate)
